@@ -17,7 +17,7 @@ RULE = ("one evaluation = one phone string (token vs independent HMAC-SHA1), one
 ASSUMPTIONS = ["the three token constants are frozen copies of the pinned tree (data/reg_constants.json), not a second origin",
                "text values are valid unicode (no lone surrogates); nothing is sent anywhere (preview mode, audit hook)",
                "hmac/urllib.parse/cryptography are trusted"]
-REQUIRED = ["first_use_processes", "same_phone_other_cc", "two_env_tokens", "request_resends", "concurrent_token_rounds", "token_yields", "token_cases", "urlencode_cases", "encrypt_cases", "request_objects", "escaped_values"]
+REQUIRED = ["requests_after_refused_params", "first_use_processes", "same_phone_other_cc", "two_env_tokens", "request_resends", "concurrent_token_rounds", "token_yields", "token_cases", "urlencode_cases", "encrypt_cases", "request_objects", "escaped_values"]
 
 DATA = os.path.join(os.path.dirname(os.path.dirname(os.path.dirname(os.path.abspath(__file__)))), "data")
 SAFE = set("ABCDEFGHIJKLMNOPQRSTUVWXYZabcdefghijklmnopqrstuvwxyz0123456789.")
@@ -133,12 +133,33 @@ def judge_plain(acc, plain, params, w, where):
     acc.count("params_checked", len(params))
 
 
+_bad_calls = [0]
+
+
 def check_encrypt(acc, W, r, params, tag, ephemerals):
     acc.count("encrypt_cases")
     acc.case(["e", [[k, want_bytes(v).hex()] for k, v in params]], nontrivial=True)
     priv, pub = harness_keypair(r)
     w = {"op": "encrypt", "params": [[k, vclass(v), want_bytes(v).hex()] for k, v in params], "tag": tag}
     req = W.__new__(W)
+    _bad_calls[0] += 1
+    if _bad_calls[0] % 3 == 0:
+        # earlier in the same process a request was refused half way: a parameter list whose first values encode and whose last
+        # one cannot (a lone surrogate, None, an arbitrary object). How it is refused is only counted; the valid request after
+        # it is judged as any other.
+        k = (_bad_calls[0] // 3) % 3
+        badv = ["\ud800", None, object()][k]
+        for how in ("urlencode", "encrypt"):
+            try:
+                if how == "urlencode":
+                    W.urlencodeParams([("cc", "49"), ("in", b"123"), ("bad", badv)])
+                else:
+                    req.encryptParams([("cc", "49"), ("bad", badv)], pub)
+                acc.count("bad_params_accepted:%d" % k)
+            except Exception as e:  # noqa
+                acc.count("bad_params_refused:%s" % type(e).__name__)
+        acc.count("requests_after_refused_params")
+        w["after_refused_params_kind"] = k
     try:
         res = req.encryptParams(list(params), pub)
     except Exception as e:  # noqa
